@@ -17,7 +17,7 @@
      2 the implementation panicked; 3 the implementation returned a value that is not the value the
      input denotes (or accepted an input that denotes nothing); 4 Duration.String output does not
      parse back to the same duration. *)
-From Restic Require Import Base.Prelude.
+From Restic Require Import Base.Prelude Gen.ParamsC49.
 
 Module C49m.
 Open Scope Z_scope.
@@ -273,7 +273,7 @@ Definition string_to_int_slice (s : bytes) : option (list Z) :=
 (* classification of strconv.ParseFloat(s[:len-1], 64) passed in by the harness *)
 Inductive fclass := FErr | FNaN | FLe0 | FIn | FGt100.
 
-Definition total_buckets_max : Z := 256.
+Definition total_buckets_max : Z := ParamsC49.total_buckets_max.
 
 Inductive fres := FOk | FBad | FPanic.
 
@@ -455,11 +455,12 @@ Definition is_err (o : obs) : bool :=
   match o with OErr | OErrSyntax | OErrRange => true | _ => false end.
 
 Definition min_i64 : Z := - two63.
-(* the round-trip clause: for fields above MinInt64 the printed form must parse back *)
+(* the round-trip clause: for (int64) fields above MinInt64 the printed form must parse back *)
+Definition fld_ok (z : Z) : bool := ((min_i64 <? z) && (z <=? max_i64))%bool.
 Definition roundtrip_ok (i : input) (o : obs) : bool :=
   match i, o with
   | IPrint y m d h, OPrint _ r =>
-      if ((min_i64 <? y) && (min_i64 <? m) && (min_i64 <? d) && (min_i64 <? h))%bool
+      if (fld_ok y && fld_ok m && fld_ok d && fld_ok h)%bool
       then obs_eqb r (ODur y m d h) else true
   | _, _ => true
   end.
